@@ -153,7 +153,8 @@ void op_sign(const Case& c, TaskCtx& t, Outcome& o) {
     out = cb->p();
   }
   EdgeBuf mbuf;
-  const uint8_t* mptr = msg.data();
+  static const uint8_t nonnull_empty = 0;
+  const uint8_t* mptr = msg.empty() ? &nonnull_empty : msg.data();
   if (c.s("place") == "edge") {
     mbuf.alloc(msg.size(), msg.data());
     mbuf.readonly(true);
@@ -513,7 +514,8 @@ void op_verify(const Case& c, TaskCtx& t, Outcome& o) {
   bool edge = c.s("place", "edge") == "edge";
   EdgeBuf sbuf, mbuf;
   bytes sig_copy = d.sig, msg_copy = d.msg;
-  const uint8_t *sp = sig_copy.data(), *mp = msg_copy.data();
+  static const uint8_t nonnull_empty = 0;
+  const uint8_t *sp = sig_copy.empty() ? &nonnull_empty : sig_copy.data(), *mp = msg_copy.empty() ? &nonnull_empty : msg_copy.data();
   if (edge) {
     sbuf.alloc(d.sig.size(), d.sig.data());
     mbuf.alloc(d.msg.size(), d.msg.data());
@@ -563,6 +565,7 @@ void op_verify(const Case& c, TaskCtx& t, Outcome& o) {
 
 // ------------------------------------------------------------------------------------------------ corrupted key -> sign (C12)
 void op_signbad(const Case& c, TaskCtx& t, Outcome& o) {
+  static const uint8_t nonnull_empty2 = 0;
   int param = (int)c.i("param", 1), surf = (int)c.i("surf", 0);
   const model::Params* pp = model::params(param);
   if (!pp || !generic_enabled(param) || !surface_available(surf, param)) {
@@ -634,14 +637,14 @@ void op_signbad(const Case& c, TaskCtx& t, Outcome& o) {
   if (surf == 1) {
     bytes pst(st.begin() + 1, st.begin() + 1 + 3 * p.ios);
     pst.resize(std::max<size_t>(tc_param_struct_sizes[param][1], pst.size()), 0x77);
-    rc = libcall(t, [&] { return param_api(param).sign(pst.data(), msg.data(), msg.size(), cb.p(), &len); });
+    rc = libcall(t, [&] { return param_api(param).sign(pst.data(), msg.empty() ? &nonnull_empty2 : msg.data(), msg.size(), cb.p(), &len); });
   } else if (surf == 2) {
     const NistApi& na = nist_api(param);
     bytes sm(msg.size() + na.consts[2] + 16, fill);
     unsigned long long smlen = 0;
     bytes skser(st.begin(), st.begin() + 1 + 3 * p.ios);
     EdgeBuf skb(skser.size(), skser.data());
-    rc = libcall(t, [&] { return na.sign(sm.data(), &smlen, msg.data(), msg.size(), skb.p); });
+    rc = libcall(t, [&] { return na.sign(sm.data(), &smlen, msg.empty() ? &nonnull_empty2 : msg.data(), msg.size(), skb.p); });
     if (rc != 0) {
       for (size_t i = 0; i < sm.size(); i++)
         if (sm[i] != fill)
@@ -653,7 +656,7 @@ void op_signbad(const Case& c, TaskCtx& t, Outcome& o) {
     if (parambit)
       expect_ok = false; // the NIST entry point is bound to its own parameter set
   } else
-    rc = libcall(t, [&] { return picnic_sign(st.data(), msg.data(), msg.size(), cb.p(), &len); });
+    rc = libcall(t, [&] { return picnic_sign(st.data(), msg.empty() ? &nonnull_empty2 : msg.data(), msg.size(), cb.p(), &len); });
   o.digest = digest_of(rc, 0, nullptr, 0);
   o.summary = "rc=" + std::to_string(rc) + " flips=" + c.s("cf") + " expect=" + (expect_ok ? "sign" : "refuse");
   if (t.stats) {
